@@ -232,6 +232,17 @@ def arrival_order(items):
     return out
 
 
+def aborted_while_connected(tr):
+    """the transport was aborted while the connection still existed (an abort() after the
+    connection is lost changes nothing for the peer)"""
+    for rec in tr.log:
+        if rec[1] == 'connection_lost':
+            return False
+        if rec[1] == 'abort':
+            return True
+    return False
+
+
 def run_case(repo, case):
     logging.disable(logging.CRITICAL)
     cfg, items = case['cfg'], case['items']
@@ -342,6 +353,7 @@ def run_case(repo, case):
                 'snaps': snaps, 'closed': closed, 'probe': probe, 'hook': s.hook_calls,
                 'hlog': {int(k[1:]): v for k, v in s.hlog.items() if k != 'probe'},
                 'loopexc': loopexc, 'pm_task_done': pm.done() if pm is not None else None,
+                'aborted': aborted_while_connected(tr),
                 'discarded': len(tr.discarded)}
     finally:
         rig.close()
@@ -364,7 +376,7 @@ def model_line(cfg, case):
     its = [f'{items[i][0]} {i} {ser_outcome(items[i][1])} {items[i][2]} {case["arr"][i]}'
            for i in arrival_order(items)]
     return (f'repaired {cfg["internal"]} {cfg["busy"]} {cfg["excessive"]} {cfg["base"]} ; '
-            f'{c["conc"]} {P} {c["throttle"]} ; ' + ' ; '.join(its))
+            f'{c["conc"]} {P} {c["throttle"]} {int(c["drain"] or 0)} ; ' + ' ; '.join(its))
 
 
 def parse_model(line):
@@ -382,6 +394,7 @@ def parse_model(line):
             'batch': None if f['batch'] == 'none' else reps(f['batch']),
             'lost': [int(x) for x in f['lost'].split(',') if x],
             'cut': None if f['cut'] == 'none' else int(f['cut']),
+            'abort': None if f['abort'] == 'none' else int(f['abort']),
             'times': {int(a): int(b) for a, b in (x.split('@') for x in f['times'].split(',') if x)}}
 
 
@@ -467,10 +480,20 @@ def oracle(cfg, case, obs):
     if c['pause'] and any(c['pause'][0] <= t <= c['pause'][1] for t, _i in cuts):
         hold_t = float(c['pause'][0])
 
+    # a behaviour outside the quantifier ends message processing and the connection is aborted:
+    # what a slow peer had not yet taken out of the send buffer is discarded with it
+    outs = [t for t, i in cuts if items[i][1][0] in OUTSIDE]
+    out_t = min(outs) if outs else None
+    when = {i: (fin[i] if fin[i] is not None else float(case['arr'][i] + P)) for i in range(len(items))}
+    tb = max([when[i] for i, it in enumerate(items) if it[0] == 'B'], default=0.0)
+
     def live(i):
         """the text speaks about item i: it completed (or overran) before anything cut"""
-        t = fin[i] if fin[i] is not None else float(case['arr'][i] + P)
+        t = when[i]
         if hold_t is not None and t >= hold_t:
+            return False
+        if out_t is not None and c['drain'] and \
+                (max(t, tb) if items[i][0] == 'B' else t) + c['drain'] >= out_t:
             return False
         if cut_t is None or i == cutter:
             return True
@@ -716,6 +739,9 @@ def no_ties(case):
     over = {t for i, t in sim.items() if t >= arr[i] + P}
     later = {a for a in arr if a > 0}
     order = [arr[i] for i in arrival_order(case['items'])]
+    drain = case['cfg']['drain']
+    if drain and {t + drain for t in sim.values()} & set(sim.values()):
+        return False        # something completes at the very instant a buffered write drains
     return (len(done) == len(set(done)) and not (set(done) & over) and not (later & (set(done) | over))
             and order == sorted(order))
 
@@ -832,8 +858,10 @@ def compare(case, obs, m):
     if not (paused and m['cut'] is not None):
         if sn[1] != m['errors'] or abs(sn[2] - m['cost']) > 0.5:
             return f'errors={sn[1]} cost={sn[2]:.2f} at t={sn[0]}', f'errors={m["errors"]} cost={m["cost"]}'
-    if m['alive'] and obs['closed'] != m['close']:
+    if obs['closed'] != m['close']:
         return f'closed={obs["closed"]}', f'close={m["close"]}'
+    if obs['aborted'] != (m['abort'] is not None) and not paused:
+        return f'aborted={obs["aborted"]}', f'abort={m["abort"]}'
     if (obs['probe'] is True) != (m['alive'] and not m['close']):
         return f'probe={obs["probe"]}', f'alive={m["alive"]} close={m["close"]}'
     if sn[4] != m['hook'] and not (paused and m['cut'] is not None):
@@ -924,13 +952,6 @@ def run(ctx):
         evaluate(ctx, corp, res)
     res['scopes']['corpus'] = len(corp)
     explore(ctx, res, ctx.deep)
-    # A source drift / broken obligation on the quick tier: lib/vcheck.py looks at quick depth
-    # first and repeats at thorough depth only when that pass recorded no violation at all -
-    # a listed known finding counts there, and C03 has one on every run.  So go deep here.
-    if not ctx.deep and ctx.deep_reasons and ctx.tier != 'thorough' and res['violations'] \
-            and not unexpected(ctx, res):
-        explore(ctx, res, True)
-        return res.finish(RULE, exhaustive=True)
     return res.finish(RULE, exhaustive=ctx.deep)
 
 
